@@ -426,6 +426,9 @@ func AddOn5(v string) []bool {
 	return AddOn5WithParity(v, p)
 }
 
+// AddOn5Parity returns the parity pattern ("L"/"G" per digit) that encodes the checksum of v.
+func AddOn5Parity(v string) string { return addOn5Parity[AddOn5Checksum(v)] }
+
 // AddOn5WithParity draws a 5-digit add-on with explicit parity (true = G).
 func AddOn5WithParity(v string, parity [5]bool) []bool {
 	mustDigits("AddOn5WithParity", v, 5)
